@@ -70,6 +70,13 @@ def make_sequences(tier, seed):
         else:              # dyadic: hits exact convergence quickly
             k = rnd.randint(1, 3)
             s = [1.0 + sum(0.5 ** ((t + 1) * i) for t in range(k)) for i in range(length)]
+        if j % 5 == 3 and kind in (0, 1, 3, 4, 5):
+            # the same sequence at a very large or very small scale (agreement with dea3 and finiteness do not depend on the scale)
+            c = 10.0 ** rnd.choice([50, 55, -50, 40, -55])
+            s = [c * t for t in s]
+        if j % 11 == 5:
+            # nearly arithmetic starts / equal early neighbours: the guards fire on the third to fifth term
+            s = [[1.0, 2.0, 3.0, 4.0, 5.0], [2.0, 2.0, 3.0, 3.0, 5.0], [1.0, 1.5, 2.0, 2.5 + 1e-9, 3.0]][j % 3] + s[5:]
         seqs.append((limexp, s))
     return seqs
 
@@ -99,8 +106,8 @@ def run_dea(item):
             evs.append(dict(n_in=n_in, kind=h['kind'], i=h['i'], n_after=int(d._n)))
         else:
             evs.append(dict(n_in=n_in, kind='first', i=0, n_after=int(d._n)))
-        if not (np.isfinite(res) and not np.isnan(err)):
-            probs.append('call %d: non-finite result %r / error %r for finite input' % (j + 1, res, err))
+        if not (np.isfinite(res) and np.isfinite(err)):
+            probs.append('call %d: non-finite result %r / error estimate %r for finite input' % (j + 1, res, err))
         if j >= 2 and not err >= 5 * EPS * abs(res) * (1 - 1e-12):
             probs.append('call %d: error estimate %r below 5 eps |result| = %r' % (j + 1, err, 5 * EPS * abs(res)))
         if j == 2:
